@@ -507,7 +507,7 @@ fn run_case(sink: &mut Sink, w: &World, pool: &[Txt], m0: u8, ops: &[Op], probe:
         }
     }
     let desc = json!({"kind": "c10", "system_csv": w.sys_csv, "user_csvs": w.user_csvs,
-        "lexica": w.lx.words.iter().map(|x| json!([x.dic, x.idx, x.key, x.cost, x.indexed, x.a, x.b, x.head])).collect::<Vec<_>>(),
+        "lexica": w.lx.words.iter().map(|x| json!([x.dic, x.idx, x.key, x.cost, x.indexed, x.a, x.b, x.head, x.shadow_of])).collect::<Vec<_>>(),
         "pool": pool.iter().map(|t| t.json()).collect::<Vec<_>>(), "initial_mode": m0,
         "ops": ops.iter().map(op_json).collect::<Vec<_>>(), "probe": probe, "probe_list": probe_list});
     let cops: Vec<String> = all.iter().filter_map(|o| cop(o, pool)).map(|s| format!("({})", s)).collect();
@@ -706,7 +706,7 @@ pub fn run(args: &Args) {
         let mut lx = Lexica::default();
         let units = |x: &Value| -> Vec<(usize, u32, bool)> { x.as_array().unwrap().iter().map(|u| (u[0].as_u64().unwrap() as usize, u[1].as_u64().unwrap() as u32, u[2].as_bool().unwrap())).collect() };
         for x in c["lexica"].as_array().unwrap() {
-            lx.words.push(Word { dic: x[0].as_u64().unwrap() as usize, idx: x[1].as_u64().unwrap() as u32, key: x[2].as_str().unwrap().to_string(), head: x[7].as_str().unwrap_or(x[2].as_str().unwrap()).to_string(), cost: x[3].as_i64().unwrap() as i32, indexed: x[4].as_bool().unwrap(), a: units(&x[5]), b: units(&x[6]) });
+            lx.words.push(Word { dic: x[0].as_u64().unwrap() as usize, idx: x[1].as_u64().unwrap() as u32, key: x[2].as_str().unwrap().to_string(), head: x[7].as_str().unwrap_or(x[2].as_str().unwrap()).to_string(), cost: x[3].as_i64().unwrap() as i32, indexed: x[4].as_bool().unwrap(), shadow_of: x[8].as_array().map(|y| (y[0].as_u64().unwrap() as usize, y[1].as_u64().unwrap() as u32)), a: units(&x[5]), b: units(&x[6]) });
         }
         lx.ndics = 1 + lx.words.iter().map(|w| w.dic).max().unwrap_or(0);
         let w = world(lx, &cfg).expect("dictionary of the replayed case");
